@@ -1048,7 +1048,9 @@ STATEMENTS = {
 	'string_refines_names': 'Node.scope / namespace / fullyname / DeclThisVar.fullyname on strings = encodings of the abstract ones',
 	'merged_refines_counterexample': 'NOT (merging on strings = encoding of merging on element lists): witnesses for@10 / for@107 (reachable) and ab / abc — the bare startswith of VarsCollector._merged',
 	'merged_refines_partial': 'the bare startswith never misses a declaration in the same or an enclosing scope (element-wise prefix implies string prefix)',
-	'rUnderscore_injective / DVar.map_key_iff / related_map': 'auxiliary: a concrete injective renaming for the non-vacuity examples; the two tests of _merged are preserved by injective renamings',
+	'merged_refines_prefixFree': 'exact: merging on strings = encoding of merging on element lists for declarations of one module whose scope elements are position-wise prefix-free (the hypothesis the real ids for@10 / for@107 violate)',
+	'equivariant': 'bundle of the equivariant_* theorems for an injective renaming that fixes the reserved words',
+	'string_refines': 'bundle of the string_refines_* theorems for well-formed names',
 }
 
 
